@@ -99,21 +99,29 @@ func globEngine(args []string) error {
 		if pkgName == "." {
 			pkgName = "" // the root package's name; Globber.Glob turns it into "."
 		}
-		res, panicked := runGlob(pkgName, c.Inc, c.Exc, c.Hid)
+		res, panicked := runGlob(pkgName, c.Inc, c.Exc, c.Hid, nil)
 		sort.Strings(res)
-		emit(map[string]any{"id": c.ID, "res": res, "panic": panicked})
+		// the same call on a Globber that has already served the package (asp keeps one Globber per BUILD file): an
+		// earlier glob(["**"]) with the other `hidden` value must not change what this call returns
+		primed, _ := runGlob(pkgName, c.Inc, c.Exc, c.Hid, &c.Hid)
+		sort.Strings(primed)
+		emit(map[string]any{"id": c.ID, "res": res, "panic": panicked, "primed": primed})
 		return nil
 	})
 }
 
-func runGlob(pkgName string, inc, exc []string, hidden bool) (res []string, panicked string) {
+func runGlob(pkgName string, inc, exc []string, hidden bool, primeOpposite *bool) (res []string, panicked string) {
 	defer func() {
 		if r := recover(); r != nil {
 			res, panicked = []string{}, fmt.Sprint(r)
 		}
 	}()
 	exclude := append(append([]string{}, exc...), globBuildFileNames...)
-	res = fs.NewGlobber(fs.HostFS, globBuildFileNames).Glob(pkgName, inc, exclude, hidden, false)
+	g := fs.NewGlobber(fs.HostFS, globBuildFileNames)
+	if primeOpposite != nil {
+		g.Glob(pkgName, []string{"**"}, globBuildFileNames, !*primeOpposite, false)
+	}
+	res = g.Glob(pkgName, inc, exclude, hidden, false)
 	if res == nil {
 		res = []string{}
 	}
